@@ -35,6 +35,7 @@ var Glyphs = []string{
 	"+", "-", "|", "=", "#", "*", "~", ":", ".", "!", "o", "x", "/", "\\", "^", "$", "%", "@",
 	"\u2500", "\u2502", "\u253c", "\u2550", "\u2551", "\u256c", "\u2501", "\u2503", "\u254b", "\u250c", "\u2510", "\u2514", "\u2518", "\u251c", "\u2524", "\u252c", "\u2534",
 	"e\u0301", "a\u0308", "\u00b7", "\u00e9",
+	"\u2500\u0305", "-\u0332\u0305", "\u2550\ufe0e", "=\u0333\u0305\u0332", // one cell, five to seven bytes (the Decoration documentation allows several runes per glyph)
 }
 
 func ctor(name string) decoration.Decoration {
